@@ -9,6 +9,7 @@ import (
 	"fmt"
 	"os"
 	"sort"
+	"strconv"
 	"strings"
 
 	"github.com/grindlemire/go-lucene/pkg/driver"
@@ -27,6 +28,12 @@ var allOps = []expr.Operator{expr.And, expr.Or, expr.Equals, expr.Like, expr.Not
 
 // traceRun renders e with a map that registers a tracing function under label labels[op] for every op in labels.
 func traceRun(e *expr.Expression, labels map[string]string) map[string]any {
+	return traceRunFail(e, labels, 0)
+}
+
+// traceRunFail: as traceRun, but the failAt-th call (counted over all functions; 0 = none) returns an error, as a
+// user's render function may.
+func traceRunFail(e *expr.Expression, labels map[string]string, failAt int) map[string]any {
 	calls := []foldCall{}
 	k := 0
 	fns := map[expr.Operator]driver.RenderFN{}
@@ -39,6 +46,13 @@ func traceRun(e *expr.Expression, labels map[string]string) map[string]any {
 		fns[op] = func(l, r string) (string, error) {
 			k++
 			ret := fmt.Sprintf("<%s:%d>", lab, k)
+			if lab == "BLANK" { // a function that renders its node to nothing (a driver that drops this operator)
+				ret = ""
+			}
+			if k == failAt {
+				calls = append(calls, foldCall{Op: name, L: l, R: r, Ret: ""})
+				return "", fmt.Errorf("render function %s refuses", name)
+			}
 			calls = append(calls, foldCall{Op: name, L: l, R: r, Ret: ret})
 			return ret, nil
 		}
@@ -161,8 +175,42 @@ func foldVariants(e *expr.Expression, tree Tree) []any {
 		}
 		over[op] = "X" + op
 		variants = append(variants, tag(traceRun(e, removed), "removed", op), tag(traceRun(e, over), "over", op))
+		over[op] = "BLANK"
+		variants = append(variants, tag(traceRun(e, over), "blank", op))
 	}
-	return variants
+	return append(variants, failingVariants(e, variants[0].(map[string]any), full)...)
+}
+
+// failingVariants: the function called for the last leaf (a list item, a range bound, the right operand ...) fails;
+// so does the one called in the middle.  Render must fail without partial text - and leave nothing behind for later renders.
+func failingVariants(e *expr.Expression, all map[string]any, full map[string]string) []any {
+	calls, _ := all["calls"].([]foldCall)
+	at := map[int]bool{}
+	for i := len(calls) - 1; i >= 0; i-- {
+		if calls[i].Op == "LIT" || calls[i].Op == "WILD" || calls[i].Op == "REGEXP" {
+			at[i+1] = true
+			break
+		}
+	}
+	if len(calls) >= 2 {
+		at[(len(calls)+1)/2] = true
+	}
+	out := []any{}
+	for _, k := range sortedInts(at) {
+		m := traceRunFail(e, full, k)
+		m["mode"], m["mop"] = "errat", strconv.Itoa(k)
+		out = append(out, m)
+	}
+	return out
+}
+
+func sortedInts(m map[int]bool) []int {
+	out := []int{}
+	for k := range m {
+		out = append(out, k)
+	}
+	sort.Ints(out)
+	return out
 }
 
 // cmdFoldDocs: trees that Parse cannot build - every JSON document of the input that decodes and validates.
@@ -265,27 +313,7 @@ func cmdFoldGroups(args []string) {
 			}
 			n++
 			observeAll(pr)
-			set := map[string]bool{}
-			opsOfTree(pr.Tree, set)
-			ops := []string{}
-			for op := range set {
-				ops = append(ops, op)
-			}
-			sort.Strings(ops)
-			tag := func(m map[string]any, mode, op string) map[string]any { m["mode"], m["mop"] = mode, op; return m }
-			variants := []any{tag(traceRun(pr.expr, full), "all", "")}
-			for _, op := range ops {
-				removed := map[string]string{}
-				over := map[string]string{}
-				for k, v := range full {
-					if k != op {
-						removed[k] = v
-					}
-					over[k] = v
-				}
-				over[op] = "X" + op
-				variants = append(variants, tag(traceRun(pr.expr, removed), "removed", op), tag(traceRun(pr.expr, over), "over", op))
-			}
+			variants := foldVariants(pr.expr, pr.Tree)
 			runs += len(variants)
 			r.write(map[string]any{"id": c.ID, "q": q, "tree": pr.Tree, "runs": variants, "obs": pr.Obs})
 		}
@@ -308,25 +336,7 @@ func cmdFoldText(args []string) {
 		return
 	}
 	observeAll(pr)
-	full := map[string]string{}
-	for _, op := range allOps {
-		full[opNames[op]] = opNames[op]
-	}
-	set := map[string]bool{}
-	opsOfTree(pr.Tree, set)
-	tag := func(m map[string]any, mode, op string) map[string]any { m["mode"], m["mop"] = mode, op; return m }
-	variants := []any{tag(traceRun(pr.expr, full), "all", "")}
-	for op := range set {
-		removed, over := map[string]string{}, map[string]string{}
-		for k, v := range full {
-			if k != op {
-				removed[k] = v
-			}
-			over[k] = v
-		}
-		over[op] = "X" + op
-		variants = append(variants, tag(traceRun(pr.expr, removed), "removed", op), tag(traceRun(pr.expr, over), "over", op))
-	}
+	variants := foldVariants(pr.expr, pr.Tree)
 	r.write(map[string]any{"id": 1, "q": *q, "tree": pr.Tree, "runs": variants, "obs": pr.Obs})
 	summary(map[string]any{"trees": 1, "renders": len(variants)})
 }
